@@ -535,6 +535,9 @@ DCONFIGS = [
     {"name": "anonymous-enabled", "auth": ["ANONYMOUS", "EXTERNAL"], "anon": True, "allusers": True},
     {"name": "anonymous-mech-without-allow-anonymous", "auth": ["ANONYMOUS", "DBUS_COOKIE_SHA1"], "anon": False, "allusers": True},
     {"name": "external-only-allow-anonymous", "auth": ["EXTERNAL"], "anon": True, "allusers": False},
+    # the same restrictions must hold on an address given on the command line (--address=), which is bound by other code than <listen>
+    {"name": "external-only-cli-address", "auth": ["EXTERNAL"], "anon": False, "allusers": True, "cli": True},
+    {"name": "cookie-only-cli-address", "auth": ["DBUS_COOKIE_SHA1"], "anon": False, "allusers": True, "cli": True},
 ]
 
 
@@ -565,7 +568,7 @@ def _daemon_job(args):
     os.environ["DBUS_TEST_HOMEDIR"] = home
     rules = list(busdiff.SESSION.rules) + ([("default", True, {"user": "*"})] if cfg["allusers"] else [])
     d = bus.Daemon(policy=busdiff.Policy(rules).to_xml(), auth=cfg["auth"], extra="<allow_anonymous/>" if cfg["anon"] else "",
-                   limits={"auth_timeout": 60000})
+                   limits={"auth_timeout": 60000}, cli_address=bool(cfg.get("cli")))
     users = users_table()
     out = []
     try:
@@ -724,6 +727,17 @@ def run_daemon(ctx):
         idu = fld(m, "id").split("/")[0]
         accept = st == "Authenticated" and ((idu != "-" and (cfg["allusers"] or idu == "0")) or (idu == "-" and cfg["anon"]))
         unused = int(fld(m, "in"))
+        # independent of the model: with <auth> elements in the configuration the server offers, and goes along with, those mechanisms only
+        if cfg["auth"] is not None:
+            offered = set()
+            for l in sasl.split(b"\r\n"):
+                if l.startswith(b"REJECTED"):
+                    offered |= set(x.decode("latin1") for x in l.split()[1:])
+            extra = offered - set(cfg["auth"])
+            if extra:
+                ok = False
+                ctx.violate("the server offers mechanism(s) %s although the configuration permits only %s (config %s)" % (sorted(extra), cfg["auth"], cfg["name"]),
+                            dict(replay, model=m), True); continue
         if mask(sasl) != mask(exp):
             ok = False
             ctx.violate("dbus-daemon's handshake replies differ from the model's: got %r expected %r" % (mask(sasl)[:200], mask(exp)[:200]),
